@@ -29,10 +29,14 @@ def main() -> int:
     logging.disable(logging.CRITICAL)
     mod = importlib.import_module(f"vf.props.{a.prop.lower()}")
     ctx = common.Ctx(a.prop, a.shard, a.nshards, a.tier, a.seed)
+    from vf import linereach
+
+    linereach.start(common.REPO)
     try:
         mod.shard(ctx)
     except Exception:  # noqa: BLE001
         ctx.res.inconclusive.append("harness exception: " + traceback.format_exc()[-1500:])
+    ctx.res.sets.setdefault("library_lines_reached", set()).update(linereach.stop())
     with open(a.out, "w") as f:
         json.dump(common.jsonable(ctx.res.to_json()), f)
     faulthandler.cancel_dump_traceback_later()
